@@ -33,6 +33,9 @@ LEVEL_TEXT = (
 )
 LEVEL_NOTE = "Trusted: the documented truncation sizes and key functions (gens/table.py), Hypothesis."
 TECHNIQUE = "boundary enumeration + Hypothesis with metamorphic oracle (extension/edit beyond the limit) and exception-class oracle"
+#: thorough tier: seed-dependent tasks are repeated under this many derived seeds (run.py); the listed task functions enumerate fixed domains
+THOROUGH_REPS = 8
+DETERMINISTIC_FNS = ('t_boundary', 't_maxsize', 't_nolimit')
 
 TRUNC = ["des_crypt", "crypt16", "bcrypt", "django_bcrypt", "ldap_des_crypt", "ldap_bcrypt", "django_des_crypt", "lmhash", "cisco_pix", "cisco_asa"]
 HAS_POLICY = [n for n in TRUNC if not n.startswith("cisco")]
